@@ -41,4 +41,5 @@ func TestAsm(t *testing.T){
 	bad:=0
 	for _,k := range coll.order { o := coll.obls[k]; if !o.ok { bad++; fmt.Println("FAIL",o.kind,o.site,o.pos,"\n    ",o.fail) } }
 	fmt.Println("obligations",len(coll.order),"failed",bad)
+	if bad > 0 && os.Getenv("DBGHEAD")=="" { t.Fatalf("%d assembly obligations not proven on the unchanged tree", bad) }
 }
